@@ -188,6 +188,7 @@ impl Prop for C17 {
             .boxed();
         vec![
             Part { name: "common-subset".into(), strategy: s1, cases: tier.pick(150_000, 3_000_000) },
+            Part { name: "scaled".into(), strategy: super::c01::scaled_part(&clean, "smi").prop_map(|ast| Case17 { ast, clean: true, q: false }).boxed(), cases: tier.pick(20_000, 300_000) },
             Part { name: "anchors-as-literals".into(), strategy: s2, cases: tier.pick(80_000, 1_500_000) },
             Part { name: "xpath-extensions".into(), strategy: s3, cases: tier.pick(120_000, 2_000_000) },
         ]
